@@ -4,7 +4,7 @@ checks (one at a time, each applied to /repo by seedtest.py and reverted), and w
 markdown table (seeded/RESULTS.md).  Not a registered check: a development tool for measuring detection.
 usage: seedall.py [<id-prefix> ...]"""
 import glob, json, os, re, subprocess, sys, time
-EXTRA = {"C01": ["C08"], "C02": ["C03", "C04"], "C03": ["C02", "C04"], "C04": ["C02", "C03"], "C08": ["C01"],
+EXTRA = {"C01": ["C05", "C06", "C08"], "C02": ["C03", "C04"], "C03": ["C02", "C04"], "C04": ["C02", "C03"], "C08": ["C01"],
          "C09": ["C10", "C11"], "C10": ["C09"], "C11": ["C09"], "C13": ["C14"], "C14": ["C13"]}
 os.chdir("/verif")
 want = sys.argv[1:]
